@@ -375,6 +375,71 @@ def gen_ternary(src):
         raise TranslateError("ternaryOpNode::evaluate has an unrecognised body: " + norm[:200])
 
 
+# ---------------------------------------------------------------- hand-modelled functions: shape checks and pins
+
+def norm_src(t):
+    t = re.sub(r"//[^\n]*", "", t)
+    t = re.sub(r"/\*.*?\*/", "", t, flags=re.S)
+    return re.sub(r"\s+", " ", t).strip()
+
+
+# sha256[:16] of the comment- and whitespace-normalised text of the functions that OccaModel/Prim.lean
+# transcribes BY HAND (scanning loops of primitive::load etc.).  A behavioural edit of one of them must be
+# followed by a re-inspection of the model; until the pin is updated the tie is reported broken.
+PINS = {
+    "primitive::load": ("src/types/primitive.cpp",
+                        r"\n  primitive primitive::load\(const char \*&c,\s*const bool includeSign\) \{\n.*?\n  \}\n",
+                        ("f6dde81d051e8f7a",)),
+    "primitive::loadBinary": ("src/types/primitive.cpp",
+                              r"\n  primitive primitive::loadBinary\(const char \*&c, const bool isNegative\) \{\n.*?\n  \}\n",
+                              ("d9b30e9a24da89a7",)),
+    "primitive::loadHex": ("src/types/primitive.cpp",
+                           r"\n  primitive primitive::loadHex\(const char \*&c, const bool isNegative\) \{\n.*?\n  \}\n",
+                           ("eadca0b80af7da6f",)),
+    "occa::parseBinary": ("src/occa/internal/utils/string.cpp",
+                          r"\n  udim_t parseBinary\(const char\*c\) \{\n.*?\n  \}\n", ("779e4bce898384ed",)),
+}
+BODIES = {
+    ("src/occa/internal/lang/expr/leftUnaryOpNode.cpp", "leftUnaryOpNode"):
+        "primitive pValue = value->evaluate(); return ((unaryOperator_t&) op)(pValue);",
+    ("src/occa/internal/lang/expr/parenthesesNode.cpp", "parenthesesNode"): "return value->evaluate();",
+    ("src/occa/internal/lang/expr/primitiveNode.cpp", "primitiveNode"): "return value;",
+}
+
+
+def check_pins(literal_by_value):
+    import hashlib
+    out = {}
+    for name, (rel, pat, pins) in PINS.items():
+        m = re.search(pat, read(rel), re.S)
+        if not m:
+            raise TranslateError("%s not found in %s" % (name, rel))
+        h = hashlib.sha256(norm_src(m.group(0)).encode()).hexdigest()[:16]
+        out[name] = h
+        if name == "primitive::load" and literal_by_value == "false":
+            continue          # the tree before the literal-typing repair: the generated flag already says so
+        if h not in pins:
+            raise TranslateError("%s changed (normalised text hash %s, expected one of %s): OccaModel/Prim.lean transcribes "
+                                 "it by hand and must be re-validated, then the pin in translate/gen_prim.py updated"
+                                 % (name, h, ", ".join(pins)))
+    for (rel, cls), want in BODIES.items():
+        m = re.search(r"primitive %s::evaluate\(\) const \{\n(.*?)\n    \}\n" % cls, read(rel), re.S)
+        if not m or norm_src(m.group(1)) != want:
+            raise TranslateError("%s::evaluate has an unrecognised body" % cls)
+    # primitive::to<T>(): every row converts the union member named like its case label
+    hdr = read("include/occa/types/primitive.hpp")
+    m = re.search(r"template <class T>\s*inline T to\(\) const \{\n(.*?)\n    \}\n", hdr, re.S)
+    if not m:
+        raise TranslateError("primitive::to<T>() not found")
+    body = re.sub(r"#pragma[^\n]*", "", m.group(1))
+    rows = re.findall(r"case primitiveType::(\w+)\s*:\s*return \(T\) value\.(\w+);", body)
+    if sorted(a for a, _ in rows) != sorted(PTY) or any(a != b for a, b in rows):
+        raise TranslateError("primitive::to<T>(): rows are not `case X: return (T) value.X` for the eleven arithmetic types")
+    if not re.search(r'default: OCCA_FORCE_ERROR\("Type not set"\);', body):
+        raise TranslateError("primitive::to<T>(): default case does not raise")
+    return out
+
+
 def table(name, keyty, keys, valty, rows, default):
     out = ["def %s : %s → Ty → %s" % (name, keyty, valty)]
     for k in keys:
@@ -394,6 +459,7 @@ def gen():
     lit, byvalue = gen_literal(src)
     sc = gen_shortcircuit(read("src/occa/internal/lang/expr/binaryOpNode.cpp"))
     gen_ternary(read("src/occa/internal/lang/expr/ternaryOpNode.cpp"))
+    pins = check_pins(byvalue)
     inv = {v: k for k, v in PTY.items()}
     out = ["-- GENERATED by translate/gen_prim.py from include/occa/types/primitive.hpp, src/types/primitive.cpp,",
            "-- src/occa/internal/lang/operator.cpp, src/occa/internal/lang/expr/binaryOpNode.cpp; do not edit.",
@@ -435,7 +501,9 @@ def gen():
             "def integerLiteral (value : Nat) (isDecimal unsigned_ : Bool) (longs : Nat) : Ty × Int :=",
             "  " + lit, "", "end Occa.Gen", ""]
     h = write_if_changed(os.path.join(VERIF, "lean/OccaGen/PrimTypes.lean"), "\n".join(out))
-    return {"PrimTypes": h}
+    out = {"PrimTypes": h}
+    out.update({"pin " + k: v for k, v in pins.items()})
+    return out
 
 
 if __name__ == "__main__":
